@@ -120,6 +120,7 @@ class Result:
         self.blocked = oc.get("blocked") or []
         self.map_races = oc.get("map_races") or []
         self.map_checks = oc.get("map_checks") or 0
+        self.clock_jumps = oc.get("clock_jumps") or 0
         self.map_shared = oc.get("map_shared") or 0
         self.deliveries = raw.get("deliveries") or []
         self.exit_normal = raw.get("exit_normal", False)
@@ -338,6 +339,10 @@ def random_sched(rng, goroutines=None, want_choices=False):
     if rng.chance(PREEMPT_SHARE):
         # preemption at loop heads (mid-function interleavings), on average once every n loop iterations
         sc["preempt"] = rng.choice([2, 5, 20, 100, 1000])
+    if rng.chance(0.25):
+        # whenever nothing can run, simulated time passes (pending timers fire) before the next stdin arrival or any
+        # progress of a real child is looked for: the outside world is slower than any timeout
+        sc["timers_first"] = True
     if want_choices:
         sc["want_choices"] = True
     return sc
